@@ -9,8 +9,8 @@ validate(schema, doc, [OverlappingFieldsCanBeMergedRule]) on generated documents
 BOUNDED, never counted as proved.  Bound: one schema (interface + 2 object types + union, scalar /
 enum / list / non-null / nested fields, arguments); documents `{ pet { A B } }` and
 `{ pet { A B C } }` where A, B, C range over 9 field atoms x 6 wrappers (plain, inline fragments on
-Dog / Cat / Pet, spreads of fragments on Dog / Cat, nested one level, fragments spreading each other
-incl. a cycle); quick: all pairs + 1500 seeded triples, thorough: all pairs + 20000 triples.
+Dog / Cat / Pet, spreads of fragments on Dog / Cat, a fragment holding only a spread, nested one level,
+fragments spreading each other incl. a cycle); quick: all pairs + 1500 seeded triples, thorough: all pairs + 20000 triples.
 @stream and fragment arguments (experimental) are not generated.  Runs natively."""
 import itertools
 import random
@@ -51,6 +51,9 @@ def wrappers(atom, k):
     if atom not in DOG_ONLY:
         out.append(("... on Cat { %s }" % atom, ""))
         out.append(("...C%d" % k, "fragment C%d on Cat { %s }" % (k, atom)))
+    # a fragment that holds nothing but a spread (its own field map is empty)
+    if atom not in DOG_ONLY and atom not in CAT_ONLY:
+        out.append(("...AG%d" % k, "fragment AG%d on Pet { ...LF%d }\nfragment LF%d on Pet { %s }" % (k, k, k, atom)))
     return out
 
 
